@@ -54,9 +54,12 @@ pub fn run(reg: &dyn Registry, ctx: &Ctx) -> Outcome {
         let (t, j, l) = match (t, j, l) {
             (Ok(t), Ok(j), Ok(l)) => (t, j, l),
             (a, b, c) => {
+                let step_panics = a.as_ref().err().map_or(false, |e| e.contains("panicked"));
                 let e = [a.err(), b.err(), c.err()].into_iter().flatten().collect::<Vec<_>>().join("; ");
-                if e.contains("panicked") {
-                    // a jump that panics does not leave the generator 2^(n/2) steps ahead
+                if e.contains("panicked") && !step_panics {
+                    // a jump that panics where stepping does not does not leave the generator 2^(n/2) steps
+                    // ahead (if stepping itself panics on that state, "2^(n/2) steps ahead" is not defined there:
+                    // undecided, the stepping fault is C01's)
                     ctx.violation(&format!("C06:{}:extract", info.name), &format!("{}: cannot extract step/jump matrices: {}", info.name, e), json!({"kind":"note"}));
                 } else {
                     ctx.machinery(&format!("{}: cannot extract step/jump matrices (undecided): {}", info.name, e));
@@ -191,6 +194,44 @@ pub fn run(reg: &dyn Registry, ctx: &Ctx) -> Outcome {
                         );
                         break;
                     }
+                }
+            }
+        }
+
+        // states whose jump image agrees with the state itself in one word, in all words but one, or is
+        // the state's complement in a word: (J xor I) s = pattern, solved on the model
+        if model_ok && bound {
+            let w = info.word_bits;
+            for (op, kk, want) in [(LinOp::Jump, n / 2, &tj), (LinOp::LongJump, 3 * n / 4, &tl)] {
+                let ji = want.xor(&Mat::identity(n));
+                let starts: Vec<BitVec> = linear::special_images(n, w, ctx.seed ^ 0x06E1).into_par_iter().filter_map(|img| ji.solve(&img).filter(|s0| !s0.is_zero())).collect();
+                ctx.add("jump_fixed_word_states", starts.len() as u64);
+                let bad = starts
+                    .par_iter()
+                    .filter_map(|s| {
+                        let pred = want.apply(s);
+                        let r = (|| -> Result<bool, String> {
+                            let mut g = linear::make_state(*ty, s)?;
+                            linear::apply_op(&mut g, op, info.word_bits)?;
+                            let mut e = linear::make_state(*ty, &pred)?;
+                            let same = (0..4).all(|_| native(&mut g, info.word_bits) == native(&mut e, info.word_bits));
+                            Ok(same && g.eq_dyn(e.as_ref()) == Some(true))
+                        })();
+                        if r == Ok(true) {
+                            None
+                        } else {
+                            Some((s.clone(), r))
+                        }
+                    })
+                    .min_by_key(|x| x.0.to_bytes());
+                ctx.add("transitions", 4 * starts.len() as u64);
+                if let Some((s, r)) = bad {
+                    let pred = want.apply(&s);
+                    ctx.violation(
+                        &format!("C06:{}:{}-fixed-word", info.name, op.name()),
+                        &format!("{}: {}() from state {} (whose image agrees with / differs from it in a special word pattern) does not reach the state 2^{} steps ahead, {} ({:?})", info.name, op.name(), hex(&s.to_bytes()), kk, hex(&pred.to_bytes()), r),
+                        json!({"kind":"jump-witness","type":info.name,"op":op.name(),"state":hex(&s.to_bytes()),"expected_state":hex(&pred.to_bytes())}),
+                    );
                 }
             }
         }
